@@ -123,6 +123,13 @@ def scalesOk (Fam : LocScaleFam) (samples : List (List Rat)) : Prop :=
 instance (Fam : LocScaleFam) (samples : List (List Rat)) : Decidable (scalesOk Fam samples) := by
   unfold scalesOk; exact inferInstance
 
+/-- parametric QM over a location–scale family divides by the fitted scale of `cm_hist` only
+    (`cdf(x, *fit_cm_hist)`); `ppf(·, *fit_obs)` is total -/
+def qmParamGuard (Fam : LocScaleFam) (d : Detrending) (obs H F : List Rat) : Prop :=
+  qmGuard d obs H F ∧ Fam.scale H ≠ 0
+instance (Fam : LocScaleFam) (d : Detrending) (obs H F : List Rat) : Decidable (qmParamGuard Fam d obs H F) := by
+  unfold qmParamGuard; exact inferInstance
+
 /-! ### ECDFM -/
 
 /-- `ECDFM.apply_on_window`: `x + ppf_obs(τ) − ppf_H(τ)`, `τ = threshold(cdf_F(x))` -/
@@ -133,6 +140,12 @@ def ecdfm {P} (Fam : Family P) (t : Rat) (obs H F : List Rat) : List Rat :=
   F.map (fun x =>
     let q := thresholdCdf t (Fam.cdf ff x)
     x + Fam.ppf fo q - Fam.ppf fh q)
+
+/-- ECDFM over a location–scale family divides by the fitted scale of `cm_future` only -/
+def ecdfmGuard (Fam : LocScaleFam) (obs H F : List Rat) : Prop :=
+  obs ≠ [] ∧ H ≠ [] ∧ F ≠ [] ∧ Fam.scale F ≠ 0
+instance (Fam : LocScaleFam) (obs H F : List Rat) : Decidable (ecdfmGuard Fam obs H F) := by
+  unfold ecdfmGuard; exact inferInstance
 
 /-! ### QuantileDeltaMapping -/
 
@@ -186,6 +199,11 @@ def qdmWindowYears {P} (Fam : Family P) (tp : TrendPres) (em : EcdfMethod) (t : 
 /-- `__attrs_post_init__`: `cdf_threshold = 1 / (running_window_length * years_length + 1)` when `None` -/
 def qdmDefaultCdfThreshold (runningWindowLength yearsLength : Int) : Rat :=
   1 / ((runningWindowLength * yearsLength + 1 : Int) : Rat)
+
+/-- QDM evaluates only `ppf` with the two fits (no division by a scale): the samples must be non-empty -/
+def qdmGuard (obs H F : List Rat) : Prop := obs ≠ [] ∧ H ≠ [] ∧ F ≠ []
+instance (obs H F : List Rat) : Decidable (qdmGuard obs H F) := by
+  unfold qdmGuard; exact inferInstance
 
 /-- relative QDM divides by `ppf_H(τ)` -/
 def qdmRelGuard {P} (Fam : Family P) (E : List Rat → Rat → Rat) (t : Rat) (F : List Rat) (fh : P) : Prop :=
